@@ -102,9 +102,9 @@ def parse(out):
         # collect failed check descriptions
         for blk in re.split(r'\nCheck \d+: ', out):
             if '- Status: FAILURE' in blk:
-                dm = re.search(r'- Description: "(.*)"', blk)
+                dm = re.search(r'- Description: "(.*?)"\n\s*- Location', blk, re.S)
                 lm = re.search(r'- Location: (\S+)', blk)
-                fc.append(((dm.group(1) if dm else '?'), (lm.group(1) if lm else '?')))
+                fc.append(((re.sub(r'\s+', ' ', dm.group(1)) if dm else '?'), (lm.group(1) if lm else '?')))
         res['failed_checks'] = fc
         # an unwinding assertion failure means the bound was too small: tooling, not a violation
         if fc and all('unwinding assertion' in d for d, _ in fc):
